@@ -34,17 +34,24 @@ VARIABLES scr,     \* handler id <<statement, index>> -> script name
           hist     \* the behaviour so far, with the predicted observation of every request
 allvars == <<cvars, regvars, scr, phase, nreq, hist>>
 
-MwScripts == {"N", "R", "A", "S"}
+MwScripts == {"N", "R", "A", "S", "E", "D"}
 ScriptOf(name) ==
   CASE name = "N" -> << <<"in">>, <<"next">>, <<"out">> >>          \* calls Next
     [] name = "R" -> << <<"in">>, <<"out">> >>                       \* returns without Next (the chain continues)
     [] name = "A" -> << <<"in">>, <<"abort">>, <<"out">> >>          \* aborts
     [] name = "S" -> << <<"in">>, <<"status", 202>>, <<"next">>, <<"out">> >>
+    [] name = "E" -> << <<"in">>, <<"err">>, <<"next">>, <<"out">> >>  \* records an error: the OnError handler runs after the chain
+    [] name = "D" -> << <<"in">>, <<"next">>, <<"out">> >>             \* leaves data / a replaced request in its context (invisible here:
+                                                                      \* the NEXT request must not see it - the harness probes every context on entry)
     [] name = "M" -> << <<"in">>, <<"write", 2, "full">>, <<"out">> >>     \* main handlers write their tag
+    [] name = "MP" -> << <<"in">>, <<"panic">> >>                    \* a main handler that panics: the OnPanic hook answers
     [] name = "NF" -> << <<"httpError", 404, 19>> >>                 \* default 404 handler (not instrumented)
     [] name = "NA" -> << <<"httpError", 405, 19>> >>                 \* default 405 handler
     [] name = "NAO" -> << <<"status", 200>> >>                       \* default 405 handler for OPTIONS
 
+\* the router's hooks (not instrumented, so they log nothing)
+OnErrorScript == << <<"status", 500>> >>                               \* r.OnError: c.SetStatus(500)
+OnPanicScript == << <<"status", 503>>, <<"write", 3, "full">> >>        \* r.OnPanic: c.SetStatus(503); write 3 bytes
 GroupPrefixes == { <<"/", "g">>, <<"h">> }
 BasePaths == { <<"/", "s">>, <<"/", "d", "/", "{", "i", "d", "}">>, <<"o", "[", "/", "{", "x", "}", "]">> }
 PoolIdx(text) == CHOOSE i \in 1..NP : PoolToks[i] = text
@@ -69,14 +76,14 @@ RUse   == \E n \in 1..2, s1 \in MwScripts, s2 \in MwScripts :
             /\ Use(n) /\ Scripted(NewScripts(Len(prog) + 1, n, <<s1, s2>>))
             /\ hist' = Append(hist, [op |-> "use", mw |-> n, scripts |-> SubSeq(<<s1, s2>>, 1, n)])
             /\ UNCHANGED ivars
-RAdd   == \E p \in BasePaths, n \in 0..1, s1 \in MwScripts, ms \in { {"GET"}, {"GET", "POST"} } :
+RAdd   == \E p \in BasePaths, n \in 0..1, s1 \in MwScripts, ms \in { {"GET"}, {"GET", "POST"} }, mn \in {"M", "MP"} :
             /\ Len(routes) < MaxRoutes /\ Add(p, n)
             /\ LET full == routes'[Len(routes')].path IN
                /\ \E i \in 1..NP : PoolToks[i] = full                       \* the pool is closed under the program alphabet
                /\ ~StaticClash(PoolIdx(full), ms)
                /\ Register(PoolIdx(full), ms)
-            /\ Scripted(NewScripts(Len(prog) + 1, n, <<s1>>) @@ (<<Len(prog) + 1, 0>> :> "M"))
-            /\ hist' = Append(hist, [op |-> "add", path |-> p, mw |-> n, scripts |-> SubSeq(<<s1>>, 1, n), ms |-> ms])
+            /\ Scripted(NewScripts(Len(prog) + 1, n, <<s1>>) @@ (<<Len(prog) + 1, 0>> :> mn))
+            /\ hist' = Append(hist, [op |-> "add", path |-> p, mw |-> n, scripts |-> SubSeq(<<s1>>, 1, n), ms |-> ms, main |-> mn])
 RRUse  == \E s1 \in MwScripts :
             /\ Len(routes) > 0 /\ RouteUse(Len(routes), 1)
             /\ Scripted(NewScripts(Len(prog) + 1, 1, <<s1>>))
@@ -100,7 +107,7 @@ ChainIds(res, m) ==
 ScriptName(id) == IF id = <<0, 0>> THEN "NF" ELSE IF id = <<0, 1>> THEN "NA" ELSE IF id = <<0, 2>> THEN "NAO" ELSE scr[id]
 Observe(res, m) ==
   LET ids == ChainIds(res, m)
-      d   == Ch!IdealDispatch([i \in 1..Len(ids) |-> ScriptOf(ScriptName(ids[i]))], Ch!None, Ch!None)
+      d   == Ch!IdealDispatch([i \in 1..Len(ids) |-> ScriptOf(ScriptName(ids[i]))], OnErrorScript, OnPanicScript)
       \* the log in terms of handler ids (default fallback handlers are not instrumented and log nothing)
       lg  == [i \in 1..Len(d.log) |-> <<d.log[i][1], ids[d.log[i][2]], d.log[i][3]>>]
   IN [kind |-> res.kind, r |-> res.r, allow |-> res.allow, log |-> lg, status |-> d.w.under[1][2], under |-> d.w.under]
